@@ -37,6 +37,17 @@ def main():
         print("replay: no violation on the current tree")
         return 0
     ctx = common.Ctx(prop, a.tier, seed, mod.LEVEL)
+    # last-resort watchdog: a check that cannot finish is a broken check
+    limit = int(os.environ.get("VERIF_TIMEOUT_S",
+                               "2400" if a.tier == "quick" else "14400"))
+
+    def on_alarm(signum, frame):
+        print("HARNESS-ERROR property=%s timeout after %d s" % (prop, limit),
+              flush=True)
+        os._exit(2)
+    import signal
+    signal.signal(signal.SIGALRM, on_alarm)
+    signal.alarm(limit)
     try:
         mod.run(ctx)
     except common.HarnessError as e:
